@@ -108,6 +108,14 @@ def make_family(tname, qname, query, randomize, usage=False):
                             *[entry_eq(a, b) for a, b in zip(full, again)]))),
                             'identical request returned a different ordered '
                             'list')
+                # below 1.34 the body has no mappings, so candidates that
+                # differ only in which suffixed group took which provider
+                # are rendered alike: distinct candidates, identical entries
+                # (same relaxation as C03's `distinct`); every other clause,
+                # the count in particular, still applies
+                rendered_alike = (
+                    tuple(int(x) for x in query.version.split('.')) < (1, 34)
+                    and len([g for g in query.groups if g]) >= 2)
                 limits = list(range(1, M + 2))
                 if randomize:
                     # one limit per path (an explorer decision): the
@@ -135,6 +143,8 @@ def make_family(tname, qname, query, randomize, usage=False):
                             'limit=%d returned a candidate that is not among '
                             'the unlimited results' % N, sig='subset')
                         for e2 in lim[:i]:
+                            if rendered_alike:
+                                break
                             obligation(ctx, 'limited-distinct',
                                        zbool(entry_eq(e, e2)),
                                        'limit=%d returned the same candidate '
@@ -177,14 +187,17 @@ def families(tier):
              ('two', 'u-vcpu-disk@1.16', False),
              ('two-i', '1+2-isolate', False), ('tree', 'u+1-none', False),
              ('two', 'u-vcpu-disk', True),
-             ('flat', 'u-disk', False), ('flat', '1-disk', False)]
+             ('flat', 'u-disk', False), ('flat', '1-disk', False),
+             ('two-i', '1+2-isolate@1.33', False)]
     extra = [('tree', 'u-vcpu-disk', False), ('tree', 'u-vcpu-disk', True),
              ('tree', 'u-vcpu-disk@1.28', True),
              ('two', 'u-vcpu-disk@1.28', False),
              ('nest-s', 'u-vcpu-disk@1.28', False),
              ('two', 'u+1-none', False), ('flat-s', 'u+1-none', False),
              ('tree', 'u+1-none', True), ('two-i', '1+2-isolate', True),
-             ('flat-a', 'u-member', False), ('tree-t', 'u-req', True)]
+             ('flat-a', 'u-member', False), ('tree-t', 'u-req', True),
+             ('two-i', '1+2-isolate@1.33', True),
+             ('tree', '1+2-isolate@1.33', False)]
     tr = quick if tier == 'quick' else quick + extra
     return [make_family(t, q, qs[q], r) for t, q, r in tr]
 
